@@ -22,6 +22,7 @@ func init() {
 }
 
 func concEnumerate(tier string, emit func(string)) {
+	reentEnumerate(emit)
 	for _, spec := range c17.GenericScenarioSpecs(tier) {
 		emit(spec)
 	}
@@ -34,6 +35,9 @@ func isConc(spec string) bool {
 func execAny(spec string) engine.Result {
 	if isConc(spec) {
 		return c17.ExecSpec(spec)
+	}
+	if strings.HasPrefix(spec, "reent|") {
+		return execReent(spec)
 	}
 	return exec(spec)
 }
